@@ -3,6 +3,7 @@ import IoraModel.Model.EngineLifecycle
 import IoraModel.Model.CloseFanout
 import IoraModel.Model.CloseDeliver
 import IoraModel.Gen.CloseSites
+import IoraModel.Model.LifecycleSites
 /-! Driver of component `life` (C02): engine lifecycle acceptor ops + close fan-out lockstep ops. -/
 namespace Iora.Driver.Life
 open Iora Iora.Driver Iora.Lifecycle
@@ -20,6 +21,7 @@ def reasonOf : Site → String
   | .procClose .writeStall => "Timeout/writeStall"
   | .gc => "GCClosed/gc"
   | .tlsRefused => "Config/tlsRefused"
+  | .resolveThrow => "Resolve/gaiThread"
   | .resolveTimeout => "Resolve/dnsTimeout"
   | .resolveFail => "Resolve/gai"
   | .refused => "Connect/refused"
@@ -67,20 +69,33 @@ def reasonOf : Site → String
   | .usLstBackpressure => "WriteBackpressure/lstOverflow"
   | .usPeerSendErr => "Socket/*"
 
+/-- the model's name of a close site (constructor name; `procClose.<origin>` for the four origins of the Close command) - appended to
+every `K` token as `~<site>` so that the plugin can count which close TRANSITIONS of the model the correspondence run went through -/
+def siteName : Site → String
+  | .procClose o => s!"procClose.{showOrigin o}"
+  | s => (toString (repr s)).replace "Iora.Lifecycle.Site." ""
+
+/-- every close site of the two tables (the `closeNow(` of process() stands for the four origins) -/
+def allSites (t : List (Sites.GSite × Sites.Role)) (origins : List Origin) : List String :=
+  (t.flatMap fun p => match p.2 with
+    | .close s => [siteName s]
+    | .closeProc => origins.map fun o => siteName (.procClose o)
+    | .prim _ => [])
+
 def showOut : Out → String
   | .ret sid true => s!"R{sid}:1"
   | .ret _ false => "R?:0"
   | .announce sid .accept => s!"A{sid}"
   | .announce sid .connect => s!"N{sid}"
   | .data sid => s!"D{sid}"
-  | .close sid site => s!"K{sid}:{reasonOf site}"
+  | .close sid site => s!"K{sid}:{reasonOf site}~{siteName site}"
 
 def parseA (s : String) : Option A :=
   match s with
   | "ok" => some .ok | "again" => some .again | "fail" => some .fail | "refused" => some .refused
   | "soerr" => some .soerr | "data" => some .data | "eof" => some .eof | "full" => some .full
   | "part" => some .part | "timeout" => some .timeout | "no" => some .no
-  | "affail" => some .afFail | "nomatch" => some .noMatch | "keyfail" => some .keyFail | "dgnokey" => some .dgramNoKey
+  | "affail" => some .afFail | "nomatch" => some .noMatch | "keyfail" => some .keyFail | "dgnokey" => some .dgramNoKey | "throw" => some .throw
   | _ => if s.startsWith "dg" then (s.drop 2).toNat?.map A.dgram
          else if s.startsWith "ad" then (s.drop 2).toNat?.map A.addrs else none
 
@@ -105,6 +120,7 @@ structure St where
   g : G := {}
   fan : Fanout.F := {}
   dl : Deliver.T := {}
+  win : List (Fanout.Where × (Deliver.Op ⊕ Deliver.Op)) := []   -- calls scripted INSIDE close callbacks: inl = on a helper thread (complete call), inr = on the I/O thread itself (refused)
 
 def stepf (st : St) : G → In → G := if st.udp then Udp.step else Tcp.step
 
@@ -202,14 +218,80 @@ def dlStep (st : St) (op : Deliver.Op) : St × String :=
 def parseMode : String → Option Deliver.Mode
   | "a" => some .async | "s" => some .sync | "d" => some .disabled | _ => none
 
-/-- the model instance: the two source variants are what the translator found in the working tree -/
-def dlInit (dcb : Bool) (maxBuf gcThr : Nat) : Deliver.T :=
-  Deliver.init { hasDataCb := dcb, maxBuf := maxBuf, gcThreshold := gcThr,
-                 eraseAlways := Iora.Gen.CloseSites.closeErasesModeAlways, tombGuard := Iora.Gen.CloseSites.setReadModeRefusesTombstone }
+/-- the model instance: the three source variants are what the translator found in the working tree -/
+def dlInit (dcb : Bool) (maxBuf gcThr : Nat) (allowSwitch : Bool := true) : Deliver.T :=
+  Deliver.init { hasDataCb := dcb, maxBuf := maxBuf, gcThreshold := gcThr, allowSwitch := allowSwitch,
+                 eraseAlways := Iora.Gen.CloseSites.closeErasesModeAlways, tombGuard := Iora.Gen.CloseSites.setReadModeRefusesTombstone,
+                 markFirst := Iora.Gen.CloseSites.closeMarksBeforeCallbacks }
 
 def fanStep (st : St) (op : Fanout.Op) : St × String :=
   let (f, outs) := Fanout.step st.fan op
   ({ st with fan := f }, fanAnswer outs)
+
+/-! One run of the Transport close handler = the two halves of `Model/CloseDeliver.lean` in the order the translator found
+(`cfg.markFirst`), with `Fanout.closeFan` (global callback, observers, cleanup) where the callbacks run, and - inside each callback -
+the application calls the script put there: `tmode` / `trecv` run on a helper thread (a complete setReadMode / receiveSync(0 ms) of
+another thread while the I/O thread is inside that callback: `Deliver.step`), `mode` / `recv` are called on the I/O thread itself and
+are refused (std::logic_error: token `M<sid>!` / `R<sid>:!`, no effect). -/
+def whereOf : Fanout.Out → Option Fanout.Where
+  | .global _ => some .global
+  | .observer _ o => some (.obs o)
+  | .cleanup _ tag => some (.cleanup tag)
+  | .unobserved _ _ => none
+
+def refusedShow : Deliver.Op → String
+  | .setMode sid _ => s!"M{sid}!"
+  | .recv sid _ => s!"R{sid}:!"
+  | _ => "?"
+
+/-- the calls scripted for callback `w` (one-shot), run after that callback's own fan-out actions -/
+def runWin (w : Fanout.Where) (st : St) : St × List String :=
+  let mine := (st.win.filter (·.1 = w)).map (·.2)
+  let st := { st with win := st.win.filter (·.1 != w) }
+  mine.foldl (fun (acc : St × List String) a =>
+    match a with
+    | .inl op => let (t, outs) := Deliver.step acc.1.dl op; ({ acc.1 with dl := t }, acc.2 ++ (outs.map dlShow).filter (· != ""))
+    | .inr op => (acc.1, acc.2 ++ [refusedShow op])) (st, [])
+
+def weave : List Fanout.Out → Option Fanout.Where → St → List String → St × List String
+  | [], none, st, acc => (st, acc)
+  | [], some w, st, acc => let (st, o) := runWin w st; (st, acc ++ o)
+  | e :: r, cur, st, acc =>
+    match whereOf e with
+    | some w' =>
+      let (st, o) := match cur with | none => (st, ([] : List String)) | some w => runWin w st
+      weave r (some w') st (acc ++ o ++ [fanShow e])
+    | none => weave r cur st (acc ++ [fanShow e])
+
+/-- the callbacks of step 7 (user-data cleanup) run after BOTH halves: split the fan-out outputs there -/
+def splitCleanup : List Fanout.Out → List Fanout.Out × List Fanout.Out
+  | [] => ([], [])
+  | e :: r => match e with
+    | .cleanup _ _ => ([], e :: r)
+    | _ => let (a, b) := splitCleanup r; (e :: a, b)
+
+def fanClose (st : St) (sid : Nat) (pre : List String) : St × String :=
+  let (f, outs) := Fanout.step st.fan (.close sid)
+  let st := { st with fan := f }
+  let (cbs, cleanup) := splitCleanup outs
+  let first : Deliver.Op := if st.dl.cfg.markFirst then .closeMark sid else .closeCbs sid
+  let second : Deliver.Op := if st.dl.cfg.markFirst then .closeCbs sid else .closeMark sid
+  let st := { st with dl := (Deliver.step st.dl first).1 }
+  -- with the callbacks-first order the window is open while the callbacks run; with the mark-first order the calls made from inside
+  -- the callbacks come after both halves - the same thing for the model, `closeCbs` only sets the ghost
+  let st := if st.dl.cfg.markFirst then { st with dl := (Deliver.step st.dl second).1 } else st
+  let (st, a1) := weave cbs none st []
+  let st := if st.dl.cfg.markFirst then st else { st with dl := (Deliver.step st.dl second).1 }
+  let (st, a2) := weave cleanup none st []
+  let all := pre ++ a1 ++ a2
+  (st, if all.isEmpty then "-" else ",".intercalate all)
+
+def parseWinAct : List String → Option (Deliver.Op ⊕ Deliver.Op)
+  | ["tmode", sid, m] => do let s ← sid.toNat?; let m ← parseMode m; pure (.inl (.setMode s m))
+  | ["trecv", sid, n] => do let s ← sid.toNat?; let n ← n.toNat?; pure (.inl (.recv s n))
+  | ["mode", sid, m] => do let s ← sid.toNat?; let m ← parseMode m; pure (.inr (.setMode s m))
+  | ["recv", sid, n] => do let s ← sid.toNat?; let n ← n.toNat?; pure (.inr (.recv s n))
+  | _ => none
 
 def step (st : St) : List String → St × String
   | ["reset", proto, cli, srv, inl, mwq, cob, maxs, sni] =>
@@ -276,25 +358,43 @@ def step (st : St) : List String → St × String
   | ["drainbegin"] => run1 st .ioDrainBegin
   | ["drainclose", sid] => match sid.toNat? with | some sid => run1 st (.ioDrainClose sid) | none => (st, "bad-op")
   | ["drainfinish"] => run1 st .ioDrainFinish
+  -- the close sites of the model's tables (what the plugin's reach counters must cover)
+  | ["sites", "tcp"] => (st, " ".intercalate (allSites Sites.tcpTable [.app, .connectTimeout, .handshakeTimeout, .writeStall]))
+  | ["sites", "udp"] => (st, " ".intercalate (allSites Sites.udpTable [.app]))   -- UdpEngine::process passes no origin: every Close is an application close
   -- close fan-out (Transport over the scripted engine)
   | ["fan", "reset", gl] =>
     match parseBit gl with
-    | some gl => ({ st with fan := { hasGlobal := gl }, dl := dlInit true 1048576 1024 }, "-")
+    | some gl => ({ st with fan := { hasGlobal := gl }, dl := dlInit true 1048576 1024, win := [] }, "-")
     | none => (st, "bad-op")
   | ["fan", "reset", gl, dcb] =>
     match parseBit gl, parseBit dcb with
-    | some gl, some dcb => ({ st with fan := { hasGlobal := gl }, dl := dlInit dcb 1048576 1024 }, "-")
+    | some gl, some dcb => ({ st with fan := { hasGlobal := gl }, dl := dlInit dcb 1048576 1024, win := [] }, "-")
     | _, _ => (st, "bad-op")
   | ["fan", "reset", gl, dcb, mb, gt] =>
     match parseBit gl, parseBit dcb, mb.toNat?, gt.toNat? with
-    | some gl, some dcb, some mb, some gt => ({ st with fan := { hasGlobal := gl }, dl := dlInit dcb mb gt }, "-")
+    | some gl, some dcb, some mb, some gt => ({ st with fan := { hasGlobal := gl }, dl := dlInit dcb mb gt, win := [] }, "-")
     | _, _, _, _ => (st, "bad-op")
+  | ["fan", "reset", gl, dcb, mb, gt, sw] =>
+    -- ... <allowReadModeSwitch>
+    match parseBit gl, parseBit dcb, mb.toNat?, gt.toNat?, parseBit sw with
+    | some gl, some dcb, some mb, some gt, some sw => ({ st with fan := { hasGlobal := gl }, dl := dlInit dcb mb gt sw, win := [] }, "-")
+    | _, _, _, _, _ => (st, "bad-op")
   | ["fan", "close", sid] =>
+    -- one close handler run on the I/O thread: both halves (Deliver) around / before the callbacks (Fanout), scripted calls woven in
     match sid.toNat? with
-    | some sid =>
-      -- one close handler: the callbacks (steps 2-5, 7: Fanout) and the receive-buffer / read-mode clean-up (step 6: Deliver)
-      let (st, ans) := fanStep st (.close sid)
-      ({ st with dl := (Deliver.step st.dl (.engClose sid)).1 }, ans)
+    | some sid => fanClose st sid []
+    | none => (st, "bad-op")
+  | ["fan", "csync", sid] =>
+    -- Transport::connectSync over the scripted engine, answered by the engine's connect callback: the id is handed to the application by
+    -- the RETURN value (no connect callback, nothing registered, nothing left behind): the session is an ordinary open session afterwards
+    match sid.toNat? with
+    | some sid => (st, s!"S{sid}+")
+    | none => (st, "bad-op")
+  | ["fan", "tclose", sid] =>
+    -- the application calls the public Transport::close(sid): nothing happens locally (no observer, no callback, no tombstone), the
+    -- request is forwarded to the engine (`X<sid>`); the scripted engine honours it: one close handler run
+    match sid.toNat? with
+    | some sid => fanClose st sid [s!"X{sid}"]
     | none => (st, "bad-op")
   | ["fan", "data", sid, hex] =>
     match sid.toNat?, parseHex hex with
@@ -317,6 +417,10 @@ def step (st : St) : List String → St × String
   | "fan" :: "inside" :: w :: act =>
     match parseWhere w, parseAct act with
     | some w, some a => fanStep st (.inside w a)
+    | some w, none =>
+      match parseWinAct act with
+      | some a => ({ st with win := st.win ++ [(w, a)] }, "-")
+      | none => (st, "bad-op")
     | _, _ => (st, "bad-op")
   | "fan" :: act =>
     match parseAct act with
